@@ -553,6 +553,12 @@ def check_c09(pid, tier, replay):
         for i in range(60 if tier == "quick" else 600):
             song = gen_seq.random_song(rng, maxev=8, loops=rng.choice(["valid", "valid", "random", "none"]), tempo_rich=rng.random() < 0.3)
             hs.append(gen_seq.seek_history(rng, song, loop=True, loop_p=1.0))
+        # two looping songs in a row: the loop-controller style of the first file (CC110 HMI / EMIDI) ends with it
+        for i in range(40 if tier == "quick" else 400):
+            a = gen_seq.random_song(rng, maxev=6, loops=rng.choice(["hmi", "emidi", "hmi", "valid"]))
+            b = gen_seq.random_song(rng, maxev=8, loops="none")
+            gen_seq.place_loops(rng, b, rng.choice(["valid", "startonly", "valid", "hmi"]), force_cc=True)
+            hs.append(gen_seq.loop_reload_history(rng, a, b))
         return hs
     return run_seq_family(pid, tier, replay, mk)
 
